@@ -399,6 +399,7 @@ type fieldLiteral struct {
 	TypeName string `json:"typeName"`
 	Field    string `json:"field"`
 	Value    string `json:"value"`
+	Const    string `json:"const"` // qualified name when the operand is (a conversion of) a named constant
 	Where    string `json:"where"`
 }
 
@@ -557,6 +558,25 @@ func (sc *scanner) scanBody(body ast.Node, env map[types.Object]string, via stri
 			return true
 		}
 		stack = append(stack, n)
+		// a local alias of a map (`m := x.<bpfMaps field>`) denotes that map from here on
+		if as, ok := n.(*ast.AssignStmt); ok && len(as.Lhs) == len(as.Rhs) {
+			for i, l := range as.Lhs {
+				if id, ok := l.(*ast.Ident); ok {
+					if tag, ok := sc.tagOf(as.Rhs[i], env); ok {
+						obj := sc.pi.info.Defs[id]
+						if obj == nil {
+							obj = sc.pi.info.Uses[id]
+						}
+						if obj != nil {
+							if env == nil {
+								env = map[types.Object]string{}
+							}
+							env[obj] = tag
+						}
+					}
+				}
+			}
+		}
 		call, ok := n.(*ast.CallExpr)
 		if !ok {
 			return true
@@ -747,11 +767,19 @@ func findListenUse(pi *pkgInfo) [][2]string {
 			if !ok || fd.Body == nil {
 				continue
 			}
-			origin := map[string]string{} // local variable -> field of the argument of its defining call
+			origin := map[string]string{}  // local variable -> field of the argument of its defining call
+			aliasOf := map[string]string{} // local variable -> bpfMaps field it was assigned from
 			ast.Inspect(fd.Body, func(n ast.Node) bool {
 				as, ok := n.(*ast.AssignStmt)
 				if !ok || len(as.Rhs) != 1 || len(as.Lhs) == 0 {
 					return true
+				}
+				if id, ok := as.Lhs[0].(*ast.Ident); ok {
+					if rs, ok := as.Rhs[0].(*ast.SelectorExpr); ok {
+						if _, isMap := tags[rs.Sel.Name]; isMap {
+							aliasOf[id.Name] = rs.Sel.Name
+						}
+					}
 				}
 				id, ok := as.Lhs[0].(*ast.Ident)
 				call, ok2 := as.Rhs[0].(*ast.CallExpr)
@@ -772,8 +800,14 @@ func findListenUse(pi *pkgInfo) [][2]string {
 				if !ok || sel.Sel.Name != "Update" {
 					return true
 				}
-				recv, ok := sel.X.(*ast.SelectorExpr)
-				if !ok || tags[recv.Sel.Name] != "listen_socket_map" {
+				recvName := ""
+				switch rx := sel.X.(type) {
+				case *ast.SelectorExpr:
+					recvName = rx.Sel.Name
+				case *ast.Ident:
+					recvName = aliasOf[rx.Name]
+				}
+				if tags[recvName] != "listen_socket_map" {
 					return true
 				}
 				key := ""
@@ -844,6 +878,27 @@ func findFieldLiterals(pi *pkgInfo, fset *token.FileSet) []fieldLiteral {
 		pos := fset.Position(p)
 		return fmt.Sprintf("%s:%d", filepath.Base(pos.Filename), pos.Line)
 	}
+	// nameOf: `consts.X`, `X`, or a conversion `uint8(consts.X)` of a declared constant -> "consts.X" / "control.X"
+	var nameOf func(e ast.Expr) string
+	nameOf = func(e ast.Expr) string {
+		switch x := e.(type) {
+		case *ast.ParenExpr:
+			return nameOf(x.X)
+		case *ast.CallExpr:
+			if len(x.Args) == 1 {
+				return nameOf(x.Args[0])
+			}
+		case *ast.Ident:
+			if c, ok := pi.info.Uses[x].(*types.Const); ok && c.Pkg() != nil {
+				return c.Pkg().Name() + "." + c.Name()
+			}
+		case *ast.SelectorExpr:
+			if c, ok := pi.info.Uses[x.Sel].(*types.Const); ok && c.Pkg() != nil {
+				return c.Pkg().Name() + "." + c.Name()
+			}
+		}
+		return ""
+	}
 	for _, f := range pi.files {
 		ast.Inspect(f, func(n ast.Node) bool {
 			switch x := n.(type) {
@@ -856,7 +911,7 @@ func findFieldLiterals(pi *pkgInfo, fset *token.FileSet) []fieldLiteral {
 				for _, pr := range [][2]ast.Expr{{x.X, x.Y}, {x.Y, x.X}} {
 					if tn, fld, ok := fieldOf(pr[0]); ok {
 						if v, ok := constOf(pr[1]); ok {
-							out = append(out, fieldLiteral{tn, fld, v, where(x.Pos())})
+							out = append(out, fieldLiteral{tn, fld, v, nameOf(pr[1]), where(x.Pos())})
 						}
 					}
 				}
@@ -868,7 +923,7 @@ func findFieldLiterals(pi *pkgInfo, fset *token.FileSet) []fieldLiteral {
 					for _, c := range x.Body.List {
 						for _, e := range c.(*ast.CaseClause).List {
 							if v, ok := constOf(e); ok {
-								out = append(out, fieldLiteral{tn, fld, v, where(e.Pos())})
+								out = append(out, fieldLiteral{tn, fld, v, nameOf(e), where(e.Pos())})
 							}
 						}
 					}
@@ -884,35 +939,159 @@ func findFieldLiterals(pi *pkgInfo, fset *token.FileSet) []fieldLiteral {
 func findParamInit(pi *pkgInfo) [][]string {
 	var out [][]string
 	for _, f := range pi.files {
-		ast.Inspect(f, func(n ast.Node) bool {
-			kv, ok := n.(*ast.KeyValueExpr)
-			if !ok {
-				return true
+		for _, d := range f.Decls {
+			fd, ok := d.(*ast.FuncDecl)
+			if !ok || fd.Body == nil {
+				continue
 			}
-			bl, ok := kv.Key.(*ast.BasicLit)
-			if !ok || bl.Kind != token.STRING || bl.Value != `"PARAM"` {
-				return true
-			}
-			cl, ok := kv.Value.(*ast.CompositeLit)
-			if !ok {
-				return true
-			}
-			for _, el := range cl.Elts {
-				fkv, ok := el.(*ast.KeyValueExpr)
-				if !ok {
-					continue
+			// every expression assigned to a local of this function (`x := e`, `x = e`)
+			assigned := map[string][]ast.Expr{}
+			ast.Inspect(fd.Body, func(n ast.Node) bool {
+				if as, ok := n.(*ast.AssignStmt); ok {
+					for i, l := range as.Lhs {
+						if id, ok := l.(*ast.Ident); ok {
+							if len(as.Rhs) == len(as.Lhs) {
+								assigned[id.Name] = append(assigned[id.Name], as.Rhs[i])
+							} else if len(as.Rhs) == 1 {
+								assigned[id.Name] = append(assigned[id.Name], as.Rhs[0])
+							}
+						}
+					}
 				}
-				row := []string{fmt.Sprint(fkv.Key)}
-				ast.Inspect(fkv.Value, func(n ast.Node) bool {
+				return true
+			})
+			var collect func(e ast.Expr, depth int, seen map[string]bool, row *[]string)
+			collect = func(e ast.Expr, depth int, seen map[string]bool, row *[]string) {
+				ast.Inspect(e, func(n ast.Node) bool {
 					if id, ok := n.(*ast.Ident); ok {
-						row = append(row, id.Name)
+						*row = append(*row, id.Name)
+						if depth > 0 && !seen[id.Name] {
+							seen[id.Name] = true
+							for _, r := range assigned[id.Name] {
+								collect(r, depth-1, seen, row)
+							}
+						}
 					}
 					return true
 				})
-				out = append(out, row)
 			}
-			return false
-		})
+			ast.Inspect(fd.Body, func(n ast.Node) bool {
+				kv, ok := n.(*ast.KeyValueExpr)
+				if !ok {
+					return true
+				}
+				bl, ok := kv.Key.(*ast.BasicLit)
+				if !ok || bl.Kind != token.STRING || bl.Value != `"PARAM"` {
+					return true
+				}
+				cl, ok := kv.Value.(*ast.CompositeLit)
+				if !ok {
+					return true
+				}
+				for _, el := range cl.Elts {
+					fkv, ok := el.(*ast.KeyValueExpr)
+					if !ok {
+						continue
+					}
+					row := []string{fmt.Sprint(fkv.Key)}
+					collect(fkv.Value, 3, map[string]bool{}, &row)
+					out = append(out, row)
+				}
+				return false
+			})
+		}
+	}
+	return out
+}
+
+// findCallbackIdShape: how the outbound id handed to outboundAliveChangeCallback is formed at its call
+// sites: "index" = `uint8(len(X))` immediately before `X = append(X, …)` with ids later assigned as
+// `…[o.Name] = uint8(i)` over `range X`; "index+k" = that plus/minus a non-zero constant; "other".
+func findCallbackIdShape(pi *pkgInfo) []string {
+	var out []string
+	lenOf := func(e ast.Expr) string { // uint8(len(X)) -> X
+		c, ok := e.(*ast.CallExpr)
+		if !ok || len(c.Args) != 1 {
+			return ""
+		}
+		if id, ok := c.Fun.(*ast.Ident); !ok || id.Name != "uint8" {
+			return ""
+		}
+		l, ok := c.Args[0].(*ast.CallExpr)
+		if !ok || len(l.Args) != 1 {
+			return ""
+		}
+		if id, ok := l.Fun.(*ast.Ident); !ok || id.Name != "len" {
+			return ""
+		}
+		if x, ok := l.Args[0].(*ast.Ident); ok {
+			return x.Name
+		}
+		return ""
+	}
+	for _, f := range pi.files {
+		for _, d := range f.Decls {
+			fd, ok := d.(*ast.FuncDecl)
+			if !ok || fd.Body == nil {
+				continue
+			}
+			assigned := map[string]ast.Expr{}
+			rangedWithIndexIds := map[string]bool{}
+			ast.Inspect(fd.Body, func(n ast.Node) bool {
+				switch x := n.(type) {
+				case *ast.AssignStmt:
+					if len(x.Lhs) == 1 && len(x.Rhs) == 1 {
+						if id, ok := x.Lhs[0].(*ast.Ident); ok {
+							assigned[id.Name] = x.Rhs[0]
+						}
+					}
+				case *ast.RangeStmt:
+					k, ok1 := x.Key.(*ast.Ident)
+					coll, ok2 := x.X.(*ast.Ident)
+					if ok1 && ok2 {
+						ast.Inspect(x.Body, func(m ast.Node) bool {
+							if as, ok := m.(*ast.AssignStmt); ok && len(as.Rhs) == 1 {
+								if c, ok := as.Rhs[0].(*ast.CallExpr); ok && len(c.Args) == 1 {
+									if a, ok := c.Args[0].(*ast.Ident); ok && a.Name == k.Name {
+										rangedWithIndexIds[coll.Name] = true
+									}
+								}
+							}
+							return true
+						})
+					}
+				}
+				return true
+			})
+			ast.Inspect(fd.Body, func(n ast.Node) bool {
+				call, ok := n.(*ast.CallExpr)
+				if !ok || len(call.Args) < 1 {
+					return true
+				}
+				sel, ok := call.Fun.(*ast.SelectorExpr)
+				if !ok || sel.Sel.Name != "outboundAliveChangeCallback" {
+					return true
+				}
+				arg := call.Args[0]
+				if id, ok := arg.(*ast.Ident); ok && assigned[id.Name] != nil {
+					arg = assigned[id.Name]
+				}
+				shape := "other"
+				if tv, ok := pi.info.Types[arg]; ok && tv.Value != nil {
+					shape = "const" + constant.ToInt(tv.Value).ExactString()
+				} else if x := lenOf(arg); x != "" && rangedWithIndexIds[x] {
+					shape = "index"
+				} else if be, ok := arg.(*ast.BinaryExpr); ok && (be.Op == token.ADD || be.Op == token.SUB) {
+					if x := lenOf(be.X); x != "" && rangedWithIndexIds[x] {
+						if tv, ok := pi.info.Types[be.Y]; ok && tv.Value != nil && constant.Sign(tv.Value) != 0 {
+							shape = "index+k"
+						}
+					}
+				}
+				out = append(out, shape)
+				return true
+			})
+		}
 	}
 	return out
 }
@@ -1210,6 +1389,32 @@ func intConsts(pi *pkgInfo, prefix string, rows map[string]constRow) {
 			}
 		}
 	}
+	// constants declared inside functions: `<prefix><func>.<name>`
+	for _, f := range pi.files {
+		for _, d := range f.Decls {
+			fd, ok := d.(*ast.FuncDecl)
+			if !ok || fd.Body == nil {
+				continue
+			}
+			ast.Inspect(fd.Body, func(n ast.Node) bool {
+				gd, ok := n.(*ast.GenDecl)
+				if !ok || gd.Tok != token.CONST {
+					return true
+				}
+				for _, sp := range gd.Specs {
+					for _, id := range sp.(*ast.ValueSpec).Names {
+						if c, ok := pi.info.Defs[id].(*types.Const); ok {
+							if v := constant.ToInt(c.Val()); v.Kind() == constant.Int {
+								nm := prefix + fd.Name.Name + "." + id.Name
+								rows[nm] = constRow{nm, v.ExactString(), false}
+							}
+						}
+					}
+				}
+				return true
+			})
+		}
+	}
 	// package-level variables with a constant integer initialiser (consts.MaxMatchSetLen)
 	for _, f := range pi.files {
 		for _, d := range f.Decls {
@@ -1382,6 +1587,7 @@ func main() {
 	fieldLits := findFieldLiterals(stub, stubL.fset)
 	paramInit := findParamInit(realP)
 	endian := nativeEndianTable(repo)
+	cbShapes := findCallbackIdShape(stub)
 	progAttach := findProgAttach(stub)
 	progUses := findProgUses(stub)
 	specMapRefs := findSpecMapRefs(stub)
@@ -1452,13 +1658,13 @@ func main() {
 		}
 		fmt.Fprintf(&b, "(%s, %s)", leanStr(l[0]), leanStr(l[1]))
 	}
-	b.WriteString("]\n\n/-- comparisons / switch cases between a field of a `bpf*` struct and an integer constant: (type, field, value, where) -/\n")
-	b.WriteString("def goFieldLiterals : List (Name × Name × Int × String) := [")
+	b.WriteString("]\n\n/-- comparisons / switch cases between a field of a `bpf*` struct and an integer constant: (type, field, value, where, qualified name of the constant operand or empty for a bare literal) -/\n")
+	b.WriteString("def goFieldLiterals : List (Name × Name × Int × String × Name) := [")
 	for i, l := range fieldLits {
 		if i > 0 {
 			b.WriteString(",\n  ")
 		}
-		fmt.Fprintf(&b, "(%s, %s, %s, %s)", leanStr(l.TypeName), leanStr(l.Field), l.Value, strconv.Quote(l.Where))
+		fmt.Fprintf(&b, "(%s, %s, %s, %s, %s)", leanStr(l.TypeName), leanStr(l.Field), l.Value, strconv.Quote(l.Where), leanStr(l.Const))
 	}
 	b.WriteString("]\n\n/-- identifiers mentioned by the initialiser of each field of the PARAM literal, in field order -/\n")
 	b.WriteString("def goParamInit : List (Name × List Name) := [")
@@ -1485,6 +1691,7 @@ func main() {
 		return "[" + strings.Join(q, ", ") + "]"
 	}
 	fmt.Fprintf(&b, "def goProgAttach : List (Name × Name) := %s\n\n", pairs(progAttach))
+	fmt.Fprintf(&b, "/-- how each call site of outboundAliveChangeCallback forms the outbound id: `index` (= position in the slice whose indices become the rule ids), `index+k`, `other` -/\ndef goCallbackIdShapes : List Name := %s\n\n", leanStrs(cbShapes))
 	fmt.Fprintf(&b, "/-- programs package control refers to outside the declaration files -/\ndef goProgUses : List Name := %s\n\n", leanStrs(progUses))
 	fmt.Fprintf(&b, "/-- map names the loader looks up as `spec.Maps[\"…\"]` -/\ndef goSpecMapRefs : List Name := %s\n\n", leanStrs(specMapRefs))
 	fmt.Fprintf(&b, "/-- `ebpf.MapSpec{Type: ebpf.<T>}` literals of the real build: (function, T) -/\ndef goNewMapTypes : List (Name × Name) := %s\n", pairs(newMapTypes))
